@@ -212,7 +212,9 @@ def build_receiver(d, Pm, salt=0):
     shape, item = tuple(d['shape']), tuple(d['item'])
     vals = _values(d['kind'], shape + item, salt)
     if d['cls'] == 'Matrix3' or (d['cls'] == 'Matrix' and item == (2, 2)):
-        vals = vals + 2.0 * np.eye(item[0])          # mostly non-singular
+        vals = vals + 2.0 * np.eye(item[0])          # mostly non-singular ...
+        if len(shape) >= 1 and shape[0] >= 2:
+            vals[1] = 0.                             # ... and one singular matrix per array
     mask = make_mask(d['mask'], shape)
     if shape + item == ():
         vals = vals[()].item()
@@ -390,6 +392,10 @@ def pool_for(cname, mname, pname, param, recv):
         return omit
     if pname in OBJ_PARAMS:
         pool = obj_pool(cname, mname, pname, recv)
+        if mname == 'eval' and pname == 'x':          # a polynomial is evaluated at a Scalar
+            shape = tuple(recv['shape']) if recv and 'shape' in recv else (3,)
+            pool = [['obj', _scalar_desc(shape if shape != (0,) else (), 'float', 'F', 't')],
+                    ['obj', _scalar_desc((3,), 'float', 'mix')]] + pool
         if has_default:
             return omit + pool
         return pool
@@ -647,17 +653,29 @@ def call_list(Pm):
     return out
 
 
-QUICK_N = 7000
+QUICK_N = 6000
 
 
 def select(calls, rng, tier, n=None):
+    """thorough: the whole list.  quick: a small exhaustive core - for every (class, callable) its
+    first call (base receiver, base arguments) and three seeded picks among its calls - plus a seeded
+    sample of n calls from the whole list.  The seed never reaches outside the list."""
     if tier == 'thorough':
         return calls
     n = n or QUICK_N
     if len(calls) <= n:
         return calls
-    idx = sorted(rng.sample(range(len(calls)), n))
-    return [calls[i] for i in idx]
+    groups = {}
+    for i, d in enumerate(calls):
+        groups.setdefault((d['cls'], d['name']), []).append(i)
+    chosen = set()
+    for key in sorted(groups):
+        g = groups[key]
+        chosen.add(g[0])
+        for _ in range(3):
+            chosen.add(g[rng.randrange(len(g))])
+    chosen.update(rng.sample(range(len(calls)), n))
+    return [calls[i] for i in sorted(chosen)]
 
 
 # =====================================================================================
